@@ -244,17 +244,48 @@ pub struct DGraph {
     pub max_edges: usize,
     pub kinds: Vec<NodeKind>,
     pub labels: Vec<Label>,
+    /// further start states; with `max_edges` 2 these are the cycles of length three (see `three_cycles`)
+    pub extra_initial: Vec<GraphState>,
+}
+
+/// Every cycle A -> B -> C -> A over struct / enum nodes and five reference kinds (what two edges cannot show: a
+/// step that is only lost transitively, a visited set that is only wrong on the third node).
+pub fn three_cycles() -> Vec<GraphState> {
+    let kinds = [NodeKind::Struct, NodeKind::Enum];
+    let labels = [Label::Boxed, Label::Vec, Label::Direct, Label::TypeArg, Label::PhantomArg];
+    let mut out = vec![];
+    for a in kinds {
+        for b in kinds {
+            for c in kinds {
+                for l0 in labels {
+                    for l1 in labels {
+                        for l2 in labels {
+                            let g = GraphState {
+                                nodes: vec![a, b, c],
+                                edges: vec![(0, 1, l0), (1, 2, l1), (2, 0, l2)],
+                            };
+                            if g.finite() {
+                                out.push(g);
+                            }
+                        }
+                    }
+                }
+            }
+        }
+    }
+    out
 }
 
 impl Driver for DGraph {
     type State = GraphState;
     fn name(&self) -> String {
         format!(
-            "D-graph(nodes<={}, edges<={}, {} node kinds, {} reference kinds, cycles included)",
+            "D-graph(nodes<={}, edges<={}, {} node kinds, {} reference kinds, cycles included{})",
             self.max_nodes,
             self.max_edges,
             self.kinds.len(),
-            self.labels.len()
+            self.labels.len(),
+            if self.extra_initial.is_empty() { String::new() } else { format!("; plus {} cycles of length three over struct/enum nodes and 5 reference kinds", self.extra_initial.len()) }
         )
     }
     fn initial(&self) -> Vec<GraphState> {
@@ -265,6 +296,7 @@ impl Driver for DGraph {
                 nodes: vec![*k],
                 edges: vec![],
             })
+            .chain(self.extra_initial.iter().cloned())
             .collect()
     }
     /// one construction step = one new reference, to an existing node or to a fresh one
@@ -324,5 +356,6 @@ pub fn quick_graph(max_edges: usize) -> DGraph {
             NodeKind::EmptyEnum,
         ],
         labels: LABELS.to_vec(),
+        extra_initial: if max_edges < 3 { three_cycles() } else { vec![] },
     }
 }
